@@ -127,5 +127,50 @@ func TestVerifConfMetrics(t *testing.T) {
 			report("metrics-group-replace", "metric_storage.(*MetricStorage).applyGroupOperations", fmt.Sprintf("got %v want %v", got, want))
 		}
 	}
-	fmt.Printf("CONF-STATS evaluated=%d scope=hand-picked metric batches on the real MetricStorage\n", evaluated)
+	// validation predicate: exhaustive over the field lattice of one operation
+	{
+		f := 1.0
+		for _, action := range []string{"", "set", "add", "observe", "expire", "bogus"} {
+			for _, group := range []string{"", "g"} {
+				for _, name := range []string{"", "n"} {
+					for mask := 0; mask < 16; mask++ {
+						evaluated++
+						op := operation.MetricOperation{Name: name, Group: group, Action: action}
+						if mask&1 != 0 {
+							op.Value = &f
+						}
+						if mask&2 != 0 {
+							op.Buckets = []float64{1}
+						}
+						if mask&4 != 0 {
+							op.Set = &f
+						}
+						if mask&8 != 0 {
+							op.Add = &f
+						}
+						okAction := false
+						if group == "" {
+							okAction = action == "set" || action == "add" || action == "observe"
+						} else {
+							okAction = action == "expire" || action == "set" || action == "add"
+						}
+						valid := action != "" && okAction && !(name == "" && (group == "" || action != "expire")) &&
+							!((action == "set" || action == "add" || action == "observe") && op.Value == nil) &&
+							!(action == "observe" && op.Buckets == nil) && !(op.Set != nil && op.Add != nil)
+						got := operation.ValidateMetricOperation(op) == nil
+						if got != valid {
+							report("metrics-validation-predicate", "metric_storage/operation.ValidateMetricOperation", fmt.Sprintf("op %s: accepted=%v, documented validity=%v", op, got, valid))
+						}
+						// a batch is rejected iff one of its operations is invalid
+						good := operation.MetricOperation{Name: "n", Action: "set", Value: &f}
+						gotBatch := operation.ValidateOperations([]operation.MetricOperation{good, op, good}) == nil
+						if gotBatch != valid {
+							report("metrics-batch-validation", "metric_storage/operation.ValidateOperations", fmt.Sprintf("batch [good, %s, good]: accepted=%v want %v", op, gotBatch, valid))
+						}
+					}
+				}
+			}
+		}
+	}
+	fmt.Printf("CONF-STATS evaluated=%d scope=hand-picked metric batches on the real MetricStorage + exhaustive field lattice of one operation (6 actions x group x name x value/buckets/set/add presence) for the validation predicate\n", evaluated)
 }
